@@ -68,11 +68,12 @@ def _const_test(test):
 
 
 class Enumerator:
-    def __init__(self, unroll=(0, 1), limit=200000, prune=None):
+    def __init__(self, unroll=(0, 1), limit=200000, prune=None, cut=None):
         self.unroll = unroll
         self.limit = limit
         self.count = 0
         self.prune = prune  # optional callable(test_node) -> True/False/None
+        self.cut = cut  # optional callable(test_node) -> bool: paths through such a test are not enumerated
 
     def paths(self, func):
         res = []
@@ -129,6 +130,8 @@ class Enumerator:
         elif isinstance(st, ast.Continue):
             yield prefix, "continue", st
         elif isinstance(st, ast.If):
+            if self.cut is not None and self.cut(st.test):
+                return
             c = self._test(st.test)
             if c is not False:
                 p = prefix if c is True else prefix + (E("test", st.test, True),)
@@ -150,6 +153,8 @@ class Enumerator:
         E = Event
         head = E("iter", st.iter) if isinstance(st, (ast.For, ast.AsyncFor)) else E("test", st.test, True)
         is_while = isinstance(st, ast.While)
+        if is_while and self.cut is not None and self.cut(st.test):
+            return
         c = self._test(st.test) if is_while else None
 
         def after(evs):
@@ -208,8 +213,8 @@ class Enumerator:
                     yield from fin(evs_exc, "raise", st.body[k])
 
 
-def enumerate_paths(func, unroll=(0, 1), limit=200000, prune=None):
-    return Enumerator(unroll=unroll, limit=limit, prune=prune).paths(func)
+def enumerate_paths(func, unroll=(0, 1), limit=200000, prune=None, cut=None):
+    return Enumerator(unroll=unroll, limit=limit, prune=prune, cut=cut).paths(func)
 
 
 # --------------------------------------------------------------------------- small query helpers
